@@ -86,6 +86,8 @@ def run_trace(tid, shape, events):
                 joy.level = bool(ev["level"])
                 r = obj.get()
                 out = {"r": r if isinstance(r, bool) else "notbool"}
+            elif k == "bdset":
+                obj.set_debounce_period(ev["p"] / 64.0)
             elif k == "rec":
                 rec = logging.LogRecord("x", ev["lvl"], __file__, 1, "msg", None, None)
                 out = {"r": bool(obj.filter(rec))}
@@ -138,6 +140,8 @@ def random_events(rng, shape):
         elif kind == "bd":
             if rng.random() < 0.3:
                 held = not held
+            if rng.random() < 0.08:
+                evs.append({"e": "bdset", "p": rng.choice([1, 2, 3, 8, 32, shape["period"]])})
             evs.append({"e": "bget", "level": held})
         elif kind == "pf":
             evs.append({"e": "rec", "lvl": rng.choice([10, 20, 20, 30, 40, 50])})
